@@ -18,7 +18,7 @@ func init() {
 		Level: "exploration",
 		Rule: "per tag (23 typed + user-defined + unknown + extension with unknown sub-tag) boundary-biased descriptor models: reference-encoded then parsed by the library " +
 			"(parseDescriptors hook, loops of 1 and of mixed descriptors, random reserved bits); the same models written by the library (writeDescriptorsWithLength hook) with the struct's " +
-			"Length correct / 0 / wrong and compared with the reference bytes and with the emitted length fields; malformed descriptor_length followed by a sentinel descriptor (an error on a loop whose lengths are consistent counts as a violation, whether 1100 bytes follow the loop or it is the last thing in its section), declared lengths that run past the end of the loop or loops that end inside a descriptor header (error, or the parse ends where the loop ends); " +
+			"Length correct / 0 / wrong and compared with the reference bytes and with the emitted length fields (a third of the write models with all their byte slices cut from one backing array); malformed descriptor_length followed by a sentinel descriptor (an error on a loop whose lengths are consistent counts as a violation, whether 1100 bytes follow the loop or it is the last thing in its section), declared lengths that run past the end of the loop or loops that end inside a descriptor header (error, or the parse ends where the loop ends); " +
 			"distinct = hash of the reference bytes; non-trivial = body length > 0",
 		Assumptions: []string{"reference = refts/descriptors.go written from ISO 13818-1 2.6 and EN 300 468 6.2/6.4/Annex D, validated by 29 known-answer vectors in its unit test",
 			"models stay inside what the structs can represent (one ISO 639 entry, VBI services of unknown ids without lines, BCD digits valid, page ≤ 99, bitrate multiple of 50)",
@@ -140,6 +140,13 @@ func checkDescWrite(c *mon.Ctx, stage string, idx int64, ds []*astits.Descriptor
 			d.Length = 0
 		case "wrong":
 			d.Length = d.Length/2 + 7
+		}
+	}
+	if idx%3 == 1 {
+		// the caller cut its names, texts and private bytes out of one buffer: every byte slice of the descriptors sits right in
+		// front of the next one
+		if mon.PackBytes(lib) >= 2 {
+			c.Count("write_models_with_byte_fields_cut_from_one_buffer")
 		}
 	}
 	var out []byte
